@@ -3,7 +3,7 @@
    array semantics of an assignment  y = e(x_0, x_1, ...) : pointwise lifting with scalar
    broadcasting, the jacobian ExecComp assembles from it (dense, has_diag_partials), and the
    reduction sum().  Definitions only. *)
-From Coq Require Import Reals List Arith Bool.
+From Coq Require Import Reals QArith Qreals ZArith List Arith Bool.
 From OMV Require Import Expr.Expr.
 Import ListNotations.
 Open Scope R_scope.
@@ -39,3 +39,56 @@ Definition exec_sum (e : expr) (xs : inputs) (n : nat) : R := sum_upto (exec_out
 Definition inputs_of_lists (ls : list (list R)) : inputs :=
   fun i k => let v := nth i ls [] in
              match v with [x] => x | _ => nth k v 0 end.
+
+(* ------------------------------------------------------------------ complex-step evaluation *)
+(* ExecComp.compute_partials evaluates the expression on x + i*h*e_v in COMPLEX arithmetic and
+   returns imag(y) / h.  Complex numbers as pairs of reals; the polynomial / rational fragment
+   (variables, constants, + - * /, integer powers) is modelled, with the same total division
+   convention as evalR. *)
+Definition Cx : Type := (R * R)%type.
+Definition cadd (z w : Cx) : Cx := (fst z + fst w, snd z + snd w).
+Definition cneg (z : Cx) : Cx := (- fst z, - snd z).
+Definition csub (z w : Cx) : Cx := (fst z - fst w, snd z - snd w).
+Definition cmul (z w : Cx) : Cx :=
+  (fst z * fst w - snd z * snd w, fst z * snd w + snd z * fst w).
+Definition cinv (z : Cx) : Cx :=
+  let n := fst z * fst z + snd z * snd z in (fst z / n, - snd z / n).
+Definition cdiv (z w : Cx) : Cx := cmul z (cinv w).
+Fixpoint cpow_nat (z : Cx) (k : nat) : Cx :=
+  match k with O => (1, 0) | S k' => cmul z (cpow_nat z k') end.
+Definition cpow (z : Cx) (n : Z) : Cx :=
+  match n with
+  | Z0 => (1, 0)
+  | Zpos p => cpow_nat z (Pos.to_nat p)
+  | Zneg p => cinv (cpow_nat z (Pos.to_nat p))
+  end.
+
+(* expressions of the fragment; everything else evaluates to (0, 0) and is excluded by cs_frag *)
+Fixpoint evalC (rho : nat -> Cx) (e : expr) : Cx :=
+  match e with
+  | EVar i   => rho i
+  | ECst q   => (Q2R q, 0)
+  | ENeg a   => cneg (evalC rho a)
+  | EAdd a b => cadd (evalC rho a) (evalC rho b)
+  | ESub a b => csub (evalC rho a) (evalC rho b)
+  | EMul a b => cmul (evalC rho a) (evalC rho b)
+  | EDiv a b => cdiv (evalC rho a) (evalC rho b)
+  | EPow a n => cpow (evalC rho a) n
+  | _ => (0, 0)
+  end.
+
+Fixpoint cs_frag (e : expr) : bool :=
+  match e with
+  | EVar _ | ECst _ => true
+  | ENeg a | EPow a _ => cs_frag a
+  | EAdd a b | ESub a b | EMul a b | EDiv a b => cs_frag a && cs_frag b
+  | _ => false
+  end.
+
+(* the complex-step environment: input v perturbed by i*h *)
+Definition cs_env (x : env) (v : nat) (h : R) : nat -> Cx :=
+  fun j => (x j, if Nat.eqb j v then h else 0).
+
+(* what compute_partials stores: imag(e(x + i h e_v)) / h *)
+Definition cs_quotient (e : expr) (x : env) (v : nat) (h : R) : R :=
+  snd (evalC (cs_env x v h) e) / h.
